@@ -59,7 +59,11 @@ CookieAccept(p) == p = "V"
 Heads == {"text", "file", "filect", "conv"}
 BadHeads == [nocd |-> "MissingContentDisposition", noblank |-> "MissingCRLF", badhdr |-> "BadHeaderLine",
              noquote |-> "UnquotedName", lfonly |-> "BareLF", mixed |-> "MultipartMixed", hiname |-> "NonUtf8Name",
-             nofnquote |-> "UnquotedFilename", openquote |-> "UnterminatedQuote", ctnoval |-> "HeaderWithoutValue"]
+             nofnquote |-> "UnquotedFilename", openquote |-> "UnterminatedQuote", ctnoval |-> "HeaderWithoutValue",
+             \* a head that stops inside a quoted name / file name (the body ends there when nothing follows), with and without a backslash as its
+             \* last byte; a name with an escaped quote and an escaped backslash in it
+             truncq |-> "EndsInsideQuotedName", truncbs |-> "EndsInsideQuotedNameAfterBackslash", fntruncbs |-> "EndsInsideQuotedFilenameAfterBackslash",
+             escq |-> "EscapedQuoteInName", bsend |-> "NameEndsWithBackslash"]
 MContent(rich) == {"c"} \cup (IF rich THEN {"CR", "LF", "-", "HI"} ELSE {})
 MpHeads(pre, nxt) == {T(pre \o h, nxt, IF h = "conv" THEN "EmptyFilePart" ELSE "") : h \in Heads}
                      \cup {T(pre \o h, nxt, BadHeads[h]) : h \in DOMAIN BadHeads}
